@@ -298,7 +298,7 @@ impl<'tcx> Cx<'tcx> {
                 }
                 uneval = J::Obj(vec![
                     ("def", s(self.path(uv.def))),
-                    ("name", s(tcx.item_name(uv.def).to_string())),
+                    ("name", s(tcx.opt_item_name(uv.def).map(|n| n.to_string()).unwrap_or_default())),
                     ("args", self.generic_args(uv.args)),
                     ("self_ty", self_ty),
                     ("trait", trait_),
@@ -349,7 +349,7 @@ impl<'tcx> Cx<'tcx> {
         }
         J::Obj(vec![
             ("def", s(self.path(did))),
-            ("name", s(tcx.item_name(did).to_string())),
+            ("name", s(tcx.opt_item_name(did).map(|n| n.to_string()).unwrap_or_default())),
             ("krate", s(tcx.crate_name(did.krate).to_string())),
             ("args", self.generic_args(args)),
             ("self_ty", self_ty),
@@ -688,6 +688,17 @@ impl<'tcx> Cx<'tcx> {
             sig_out = s(self.ty_str(sig.output()));
         }
 
+        // names of the generic parameters, in the order in which generic arguments are listed at call sites
+        // (parent's parameters first); lifetimes keep their leading apostrophe
+        let mut generics = Vec::new();
+        if matches!(dk, DefKind::Fn | DefKind::AssocFn) {
+            let g = tcx.generics_of(did);
+            for i in 0..g.count() {
+                let p = g.param_at(i, tcx);
+                generics.push(s(p.name.to_string()));
+            }
+        }
+
         let mut locals = Vec::new();
         for (_l, decl) in body.local_decls.iter_enumerated() {
             locals.push(J::Obj(vec![
@@ -721,6 +732,7 @@ impl<'tcx> Cx<'tcx> {
             ("impl_trait", impl_trait),
             ("sig_in", J::Arr(sig_in)),
             ("sig_out", sig_out),
+            ("generics", J::Arr(generics)),
             ("file", s(file)),
             ("line", J::Int(line)),
             ("from_expansion", J::Bool(exp)),
@@ -870,7 +882,7 @@ impl<'tcx> Cx<'tcx> {
                     }
                     consts.push(J::Obj(vec![
                         ("def", s(self.path(did))),
-                        ("name", s(tcx.item_name(did).to_string())),
+                        ("name", s(tcx.opt_item_name(did).map(|n| n.to_string()).unwrap_or_default())),
                         ("ty", s(self.ty_str(ty))),
                         ("self_ty", self_ty),
                         ("trait", trait_),
